@@ -129,6 +129,11 @@ def optimum(reg, g, cap=2_000_000):
         if len(comp) == 1:
             total += reg[comp[0]][2]
             continue
+        if all(len(g[i]) == len(comp) - 1 for i in comp):
+            # mutually crossing stems: every stem on its own level, longest first (rearrangement inequality)
+            ls = sorted((reg[i][2] for i in comp), reverse=True)
+            total += ls[0] - sum(k * L for k, L in enumerate(ls) if k)
+            continue
         order = sorted(comp, key=lambda i: (-len(g[i]), -reg[i][2]))
         n = len(order)
         lev = {}
